@@ -72,6 +72,29 @@ def resolve(sel, row_labels, col_labels):
         return out, (len(out),)
     if t in ('all', 'plate'):
         return [(r, c) for r in range(nr) for c in range(nc)], (nr, nc)
+    if t == 'sub':
+        # a slice of a slice (Slicer.__getitem__): Python/numpy semantics, 0-based and end-exclusive, relative to the
+        # rows and columns selected by the base slice.  Not part of the documented grammar (C13 does not use it);
+        # used as an operand form in the differential checks, where only consistency between two paths is judged.
+        coords, shape = resolve(sel['base'], row_labels, col_labels)
+        if len(shape) != 2:
+            raise Invalid("sub-slice of a list")
+        rows = sorted({r for r, _ in coords})
+        cols = sorted({c for _, c in coords})
+
+        def cut(seq, spec):
+            if isinstance(spec, int):
+                if not 0 <= spec < len(seq):
+                    raise Invalid("sub index")
+                return seq[spec:spec + 1]
+            a, b = spec.get('a'), spec.get('b')
+            if (a is not None and a < 0) or (b is not None and b < 0):
+                raise Invalid("negative sub index")
+            return seq[slice(a, b)]
+        rs, cs = cut(rows, sel['r']), cut(cols, sel['c'])
+        if not rs or not cs:
+            raise Invalid("empty sub-slice")
+        return [(r, c) for r in rs for c in cs], (len(rs), len(cs))
     raise Invalid(t)
 
 
@@ -103,8 +126,19 @@ def to_py(sel):
     raise ValueError(t)
 
 
+def select(plate, sel):
+    """plate[...] for a tagged selector (two-stage for a slice of a slice)"""
+    if sel['t'] == 'sub':
+        def part(spec):
+            return spec if isinstance(spec, int) else slice(spec.get('a'), spec.get('b'))
+        return plate[to_py(sel['base'])][part(sel['r']), part(sel['c'])]
+    return plate[to_py(sel)]
+
+
 def show(sel):
     t = sel['t']
     if t == 'plate':
         return '<Plate>'
+    if t == 'sub':
+        return f"{show(sel['base'])}[{sel['r']}, {sel['c']}]"
     return repr(to_py(sel))
